@@ -113,6 +113,8 @@ def run(rec, cfg):
             continue
         rec.arm("start:" + src)
         MR.HINTS[:] = hints
+        if D._small(root, 25) and rng.random() < 0.5:
+            D.inplace_pairs(rec, root, rules, rng, first=6, second=4)
         if rng.random() < 0.5:
             inplace_equation_chain(rec, root, rules, rng, text, hints)
         if rng.random() < 0.6:
